@@ -94,6 +94,10 @@ def _build():
     for pl in ['x', 'a"b', 'a:b', 'a\nb', 'a\\b', '', u'é', '$', 'a,b', ')', '\x01', 'a b']:
         add(E('xstr:Foo(%r)' % pl, ('xstr', 'Foo', pl), minver='3.0', rep=pl in ('x', 'a"b', 'a:b')))
     add(E('xstr:Bin(text/plain)', ('xstr', 'Bin', 'text/plain'), minver='3.0'))
+    # type names that differ from the two binary encodings only by letter case are ordinary (textual) types
+    add(E('xstr:Hex(ff00)', ('xstr', 'Hex', 'ff00'), minver='3.0', rep=True))
+    add(E('xstr:B64(AAEC)', ('xstr', 'B64', 'AAEC'), minver='3.0'))
+    add(E('xstr:HEX(zz)', ('xstr', 'HEX', 'zz'), minver='3.0'))
     # dates / times
     for (y, m, d) in [(1, 1, 1), (1970, 1, 1), (2020, 2, 29), (9999, 12, 31), (1900, 1, 1)]:
         add(E('date:%04d-%02d-%02d' % (y, m, d), ('date', y, m, d), rep=(y == 2020)))
